@@ -20,7 +20,7 @@ from mmverif.engine.specs import ModuleSpec, register
 from mmverif.engine.values import *  # pylint: disable=wildcard-import
 
 REL = 'matched_markets/methodology/tbrmmdesignparameters.py'
-spec = register(ModuleSpec(REL, float_mode='F'))
+spec = register(ModuleSpec(REL, float_mode='F', safety_props=('C17',)))
 CLS = 'TBRMMDesignParameters'
 
 FIELDS = ['n_test', 'iroas', 'volume_ratio_tolerance', 'geo_ratio_tolerance',
